@@ -75,7 +75,7 @@ Proof. cbn [printable]. intros H Ra. apply andb_prop in H as [H Hx]. apply andb_
     destruct want; reflexivity.
   - intros want. rewrite dt_unary, wfn_par_when. cbn [wfn]. exact (rt_wfn c dd a Ra false).
   - rewrite dt_unary. simpl. lia.
-  - intros _. rewrite dt_unary. reflexivity.
+  - rewrite dt_unary. reflexivity.
   - intros want. rewrite dt_unary, strip_par_when. cbn [strip]. rewrite walk_node_eq, wn_factor. cbn [map tok_text].
     rewrite (rt_walk c dd a Ra false). change (remap factor_remap "-") with "__neg__".
     unfold call_method. rewrite Ht. cbn [negb]. change (find_method "__neg__" method_table) with (Some MNeg). cbv iota beta.
@@ -140,7 +140,7 @@ Proof. intros H Hk R. cbn [printable] in H. apply andb_prop in H as [H Hx]. appl
     unfold at_least. pose proof (rt_lvl10 c dd a (R a (or_introl eq_refl))).
     replace (Nat.leb (S (binop_level op)) (dlvl (dtree_of true a))) with true; [reflexivity|symmetry; apply Nat.leb_le; lia].
   - rewrite (dt_chain true op false None a b more Hpow). simpl. lia.
-  - intros _. rewrite (dt_chain true op false None a b more Hpow). reflexivity.
+  - rewrite (dt_chain true op false None a b more Hpow). reflexivity.
   - intros want. rewrite (dt_chain want op false None a b more Hpow), strip_par_when. cbn [strip].
     rewrite map_map. cbn [fst snd].
     pose proof (operands_walk (a :: b :: more) R) as Hw. cbn [map] in Hw.
